@@ -116,6 +116,9 @@ impl<'a> Reader<'a> {
         if self.begin == self.end {
             self.refill();
         }
+        if self.eof {
+            return 0;
+        }
         self.buf[self.begin]
     }
 }
